@@ -33,6 +33,9 @@ NODE_KINDS = sorted({c.__name__ for c in ast.stmt.__subclasses__() + ast.expr.__
                     {'comprehension', 'arguments', 'keyword', 'alias', 'ExceptHandler', 'arg', 'withitem', 'match_case'})
 
 
+OTHER_SUBMISSION = 'import os\ntotal = 0\nfor n in [1, 2.5, "three"]:\n    total = total + len(str(n)) * 2\nprint(total > 3 and not False)\n'
+
+
 def op_count(tree, symbol):
     """(lo, hi, locations) for an operator symbol."""
     locs = set()
@@ -161,14 +164,26 @@ def judge(case):
     code = case['code']
     tree = ast.parse(code)
     MAIN_REPORT.full_clear()
-    contextualize_report(code)
     viol, classes = [], []
+    root_kw, find_root, find_code = {}, None, None
+    if case.get('explicit'):
+        # the questions are asked about an explicitly given program (root=parse_program(code) / student_code=code) while the report
+        # holds, and has verified, a different submission
+        from pedal.source import verify
+        from pedal.cait.cait_api import parse_program
+        contextualize_report(OTHER_SUBMISSION)
+        verify()
+        find_root = parse_program(code)
+        root_kw, find_code = {'root': find_root}, code
+        classes.append('explicit-program')
+    else:
+        contextualize_report(code)
     state = {'nontrivial': False, 'amb': 0}
 
     def fired(fn, *args, **kw):
         MAIN_REPORT.feedback.clear()
         MAIN_REPORT.ignored_feedback.clear()
-        fb = fn(*args, **kw)
+        fb = fn(*args, **dict(root_kw, **kw))
         return bool(fb), fb
 
     def thresholds(lo, hi, ensure_fn, prevent_fn, arg, cell, desc, lines, kwname=('at_least', 'at_most')):
@@ -234,7 +249,7 @@ def judge(case):
             classes.append('operator-repeated')
         cell = 'C08|operator=%s' % sym
         thresholds(lo, hi, S.ensure_operation, S.prevent_operation, sym, cell, 'operation(%r)' % sym, locs)
-        found(find_operation(sym), lo, hi, locs, cell, 'find_operation(%r)' % sym)
+        found(find_operation(sym, find_root), lo, hi, locs, cell, 'find_operation(%r)' % sym)
     classes.append('operators-present=%s' % ('0' if not present_ops else '1-3' if present_ops <= 3 else '4-8' if present_ops <= 8 else '9+'))
     # calls
     names = sorted({(n.func.id if isinstance(n.func, ast.Name) else n.func.attr) for n in ast.walk(tree)
@@ -246,7 +261,7 @@ def judge(case):
         if lo >= 2:
             classes.append('call-repeated')
         thresholds(lo, hi, S.ensure_function_call, S.prevent_function_call, name, 'C08|call', 'function_call(%r)' % name, locs)
-        found(find_function_calls(name), lo, hi, locs, 'C08|call', 'find_function_calls(%r)' % name)
+        found(find_function_calls(name, root=find_root), lo, hi, locs, 'C08|call', 'find_function_calls(%r)' % name)
     # literals: present values + near misses
     present = []
     for n in ast.walk(tree):
@@ -297,7 +312,7 @@ def judge(case):
     for k in sorted(set(kinds_present)) + absent:
         lo, hi, locs = kind_count(tree, k)
         thresholds(lo, hi, S.ensure_ast, S.prevent_ast, k, 'C08|ast', 'ast(%r)' % k, locs)
-        found(find_asts(k), lo, hi, locs, 'C08|ast', 'find_asts(%r)' % k)
+        found(find_asts(k, find_code), lo, hi, locs, 'C08|ast', 'find_asts(%r)' % k)
     # modules
     mods = module_names(tree)
     for m in sorted(mods)[:4] + ['not_imported_mod']:
@@ -325,7 +340,9 @@ def judge(case):
 
 
 def programs(tier):
-    return st.one_of(G.any_valid_program(stdlib=False), G.any_valid_program(stdlib=False), G.valid_commented_program()).map(lambda code: {'code': code})
+    return st.builds(lambda code, explicit: {'code': code, 'explicit': explicit} if explicit else {'code': code},
+                     st.one_of(G.any_valid_program(stdlib=False), G.any_valid_program(stdlib=False), G.valid_commented_program()),
+                     st.sampled_from([False, False, True]))
 
 
 def corpus_cases(tier):
